@@ -624,10 +624,10 @@ Proof.
   unfold sml_pok. rewrite Hj, Hp. apply forallb_text_okb, Hok.
 Qed.
 
-Theorem parser_outputs_sml cs t : ml_resource t = true ->
+Theorem parser_outputs_sml cs t : ml_resource t = true -> last_comment_ok t = true ->
   exists t', parse (render cs t) = Done (t', []) /\ sml_resource t' = true /\ map join_entry t' = t.
 Proof.
-  intros Ht. destruct (parse_render_ml_split eoks etexts (goodd 0) render_facts join_facts place_facts cs t Ht) as (t' & E & Hrel). exists t'. split; [exact E|]. split.
+  intros Ht Hlast. destruct (parse_render_ml_split eoks etexts (goodd 0) render_facts join_facts place_facts cs t Ht Hlast) as (t' & E & Hrel). clear Hlast. exists t'. split; [exact E|]. split.
   - rewrite <- (ml_resource_g eoks) in Ht. unfold sml_resource. clear E. revert Ht.
     assert (Hattrs : forall a' a, Forall2 (rel_attr srel) a' a -> forallb (g_attribute (ml_pok eoks)) a = true ->
                                   forallb (g_attribute sml_pok) a' = true).
@@ -661,7 +661,7 @@ Qed.
 
 Theorem simple_resource_sml t : simple_resource t = true -> sml_resource t = true.
 Proof.
-  intros Ht. rewrite <- simple_resource_g in Ht. unfold sml_resource.
+  intros Ht. apply simple_resource_g in Ht. unfold sml_resource.
   apply (g_resource_mono (fun els => simple_pattern (Pattern els)) sml_pok t); [|exact Ht].
   assert (Hsi : forall i, simple_inline i = true -> eoks (Inline i) = true) by (intros i Hi; exact Hi).
   intros els Hp. pose proof (simple_pattern_ml eoks Hsi _ Hp) as Hml. destruct (simple_pattern_parts els Hp) as (_ & Hs & _).
